@@ -90,4 +90,21 @@ def sepOffsets (sep : Rat) : List (Int × Int) :=
   (r.flatMap fun dy => r.map fun dx => (dy, dx)).filter fun o =>
     decide (((o.1 * o.1 + o.2 * o.2 : Int) : Rat) ≤ sep * sep)
 
+/-- which neighbourhood `_find_stars` hands to the peak finder: the kernel's own footprint for a separation of exactly zero,
+    the disk `sepOffsets` otherwise -/
+inductive Neighbourhood where
+  | kernelFootprint
+  | disk (offsets : List (Int × Int))
+deriving DecidableEq, Repr
+
+def neighbourhood (sep : Rat) : Neighbourhood :=
+  if sep = 0 then .kernelFootprint else .disk (sepOffsets sep)
+
+/-- the separation `IRAFStarFinder` works with: the caller's `min_separation` whenever one is given (zero included), otherwise
+    `max(2, int(fwhm * minsep_fwhm + 0.5))`; `none` = the constructor raises (negative separation) -/
+def irafMinSep (given : Option Rat) (fwhm minsepFwhm : Rat) : Option Rat :=
+  match given with
+  | some s => if s < 0 then none else some s
+  | none => some (((max 2 (fwhm * minsepFwhm + 1 / 2).floor : Int)) : Rat)
+
 end PhotVerif.Model.Peaks
